@@ -48,6 +48,7 @@ type Report struct {
 	violations  []Case
 	nViol       int64
 	violKeys    map[string]int64
+	knownKeys   map[string]bool
 	unrepro     int64
 	samples     []any
 	sampleCap   int
@@ -113,6 +114,22 @@ func (r *Report) NotExhaustive(why string) {
 func (r *Report) Violation(c Case, recheck func() bool) {
 	// a key that was already confirmed 3 times is only counted (no re-execution)
 	r.mu.Lock()
+	if r.knownKeys == nil {
+		r.knownKeys = map[string]bool{}
+		kl, _ := loadKnown()
+		for _, k := range kl {
+			if k.prop == r.Prop {
+				r.knownKeys[k.key] = true
+			}
+		}
+	}
+	if r.knownKeys[c.Key] && r.violKeys[c.Key] >= 1 {
+		// a listed known finding: counted, never a reason to end exploration early
+		r.violKeys[c.Key]++
+		r.mu.Unlock()
+		return
+	}
+	known := r.knownKeys[c.Key]
 	if r.violKeys[c.Key] >= 3 {
 		r.violKeys[c.Key]++
 		r.nViol++
@@ -138,7 +155,9 @@ func (r *Report) Violation(c Case, recheck func() bool) {
 	}
 	c.Property = r.Prop
 	r.mu.Lock()
-	r.nViol++
+	if !known {
+		r.nViol++
+	}
 	r.violKeys[c.Key]++
 	// keep the first case of each key, up to 40 keys
 	if r.violKeys[c.Key] == 1 && len(r.violations) < 40 {
